@@ -19,6 +19,7 @@ type gctx struct {
 	c        *chain
 	ops      []string
 	N        int64
+	M        int64
 	curH     int64 // pool's state height
 	storeH   int64
 	nid      int
@@ -358,8 +359,10 @@ func genCase(r *rand.Rand, long bool) core.Case {
 	if long {
 		N = int64(20 + r.Intn(21))
 	}
-	g := &gctx{r: r, N: N, genu: map[string]bool{}, kindOf: map[string]string{}}
-	g.do(fmt.Sprintf("ctx A=%d D=%d", A, D))
+	// Evidence.MaxBytes: often only one to four items' worth, so a pending backlog exceeds a block
+	M := []int64{300, 450, 800, 1000, 1300, 1700, 2500, 5000, 1 << 20, 1 << 20}[r.Intn(10)]
+	g := &gctx{r: r, N: N, M: M, genu: map[string]bool{}, kindOf: map[string]string{}}
+	g.do(fmt.Sprintf("ctx A=%d D=%d M=%d", A, D, M))
 	// validators
 	cur := map[int]int64{}
 	powers := []int64{1, 2, 5, 10, 100}
@@ -431,7 +434,11 @@ func genCase(r *rand.Rand, long bool) core.Case {
 		case k < 62: // a block: evidence from the pool's own proposal and/or from outside
 			var l []string
 			if r.Intn(2) == 0 {
-				out := g.do(fmt.Sprintf("pe max=%d", []int64{-1, 400, 1000, 1 << 20}[r.Intn(4)]))
+				mx := g.M // CreateProposalBlock: PendingEvidence(state.ConsensusParams.Evidence.MaxBytes)
+				if r.Intn(4) == 0 {
+					mx = []int64{-1, 400, 1000, 1 << 20}[r.Intn(4)]
+				}
+				out := g.do(fmt.Sprintf("pe max=%d", mx))
 				if i := strings.Index(out, "ids="); i >= 0 && out[i+4:] != "-" {
 					for _, k := range strings.Split(out[i+4:], ",") {
 						if id := g.idOfKey(k); id != "" {
@@ -501,8 +508,11 @@ func genCase(r *rand.Rand, long bool) core.Case {
 			if strings.HasPrefix(g.do("restart"), "ok") {
 				g.curH = g.storeH
 			}
+			if r.Intn(2) == 0 {
+				g.do(fmt.Sprintf("pe max=%d", []int64{-1, g.M, 600}[r.Intn(3)]))
+			}
 		case k < 96:
-			g.do(fmt.Sprintf("pe max=%d", []int64{-1, 0, 1, 300, 600, 1200, 1 << 20, -2}[r.Intn(8)]))
+			g.do(fmt.Sprintf("pe max=%d", []int64{-1, 0, 1, 300, 600, 1200, 1 << 20, -2, g.M, g.M}[r.Intn(10)]))
 		case k < 98:
 			g.do(fmt.Sprintf("update h=%d ev=-", g.curH-int64(r.Intn(2)))) // not above the pool's state: panics
 		default:
@@ -519,6 +529,99 @@ func genCase(r *rand.Rand, long bool) core.Case {
 		kind = "pool-long"
 	}
 	return core.Case{Kind: kind, Ops: g.ops}
+}
+
+// genBacklog: a pending backlog larger than one block's worth of evidence (small Evidence.MaxBytes,
+// limits that do not expire it), carried across restarts and drained block by block
+func genBacklog(r *rand.Rand) core.Case {
+	A := int64(20 + r.Intn(30))
+	D := []int64{0, 5000000000, 100000000000}[r.Intn(3)]
+	N := int64(8 + r.Intn(12))
+	M := []int64{300, 450, 800, 1000, 1300, 2000}[r.Intn(6)]
+	g := &gctx{r: r, N: N, M: M, genu: map[string]bool{}, kindOf: map[string]string{}}
+	g.do(fmt.Sprintf("ctx A=%d D=%d M=%d", A, D, M))
+	t := int64(0)
+	nv := 1 + r.Intn(3)
+	var toks []string
+	for k := 0; k < nv; k++ {
+		toks = append(toks, fmt.Sprintf("k%d:%d:k%d", k, []int64{1, 5, 10}[r.Intn(3)], k))
+	}
+	for h := int64(1); h <= N; h++ {
+		t += []int64{1000000000, 1500000000, 2000000000}[r.Intn(3)]
+		g.do(fmt.Sprintf("blk t=%d vals=%s", t, strings.Join(toks, ",")))
+	}
+	h0 := 2 + r.Int63n(3)
+	g.do(fmt.Sprintf("init h=%d", h0))
+	g.curH, g.storeH = h0, h0
+	fill := func(n int) {
+		for i := 0; i < n; i++ {
+			h := 1 + r.Int63n(g.curH)
+			switch r.Intn(6) {
+			case 0:
+				if id := g.defineLCA(); id != "" {
+					g.do("check l=" + id)
+				}
+			case 1:
+				if id := g.defineDV(g.genuineDV(h), true); id != "" {
+					g.do("check l=" + id)
+				}
+			case 2:
+				if id := g.defineDV(g.genuineDV(g.curH), true); id != "" {
+					g.do(fmt.Sprintf("report e=%s swap=%d", id, r.Intn(2)))
+				}
+			default:
+				if id := g.defineDV(g.genuineDV(h), true); id != "" {
+					g.do("add e=" + id)
+				}
+			}
+		}
+	}
+	fill(3 + r.Intn(6))
+	for round := 0; round < 2+r.Intn(4) && g.curH < N; round++ {
+		switch r.Intn(4) {
+		case 0:
+			g.growTo(g.curH + 1)
+		case 1:
+			fill(1 + r.Intn(3))
+		}
+		g.do("restart")
+		g.curH = g.storeH
+		g.do(fmt.Sprintf("pe max=%d", []int64{-1, g.M, g.M, 2 * g.M}[r.Intn(4)]))
+		// drain: blocks carrying what the proposer gets within the cap
+		for b := 0; b < 1+r.Intn(3) && g.curH < N; b++ {
+			out := g.do(fmt.Sprintf("pe max=%d", g.M))
+			var l []string
+			if i := strings.Index(out, "ids="); i >= 0 && out[i+4:] != "-" {
+				for _, k := range strings.Split(out[i+4:], ",") {
+					if id := g.idOfKey(k); id != "" {
+						l = append(l, id)
+					}
+				}
+			}
+			g.growTo(g.curH + 1)
+			ls := "-"
+			if len(l) > 0 {
+				ls = strings.Join(l, ",")
+				if !strings.HasPrefix(g.do("check l="+ls), "ok") {
+					ls = "-"
+				}
+			}
+			if strings.HasPrefix(g.do(fmt.Sprintf("update h=%d ev=%s", g.curH+1, ls)), "ok") {
+				g.curH++
+			}
+			if r.Intn(3) == 0 {
+				g.do("pe max=-1")
+			}
+		}
+	}
+	g.do("pe max=-1")
+	g.do(fmt.Sprintf("pe max=%d", g.M))
+	g.do("restart")
+	g.do("pe max=-1")
+	if g.c != nil && g.c.evDB != nil {
+		g.c.evDB.Close()
+	}
+	return core.Case{Kind: "backlog", Ops: g.ops}
 }
 
 func (g *gctx) idOfKey(k string) string {
@@ -551,6 +654,9 @@ func gen(r *rand.Rand, tier string, emit func(core.Case)) {
 	}
 	for i := 0; i < nl; i++ {
 		emit(genCase(r, true))
+	}
+	for i := 0; i < 2*nl; i++ {
+		emit(genBacklog(r))
 	}
 	// malformed streams: ops before any context, wrong order
 	for i := 0; i < 20; i++ {
